@@ -73,6 +73,8 @@ type Point struct {
 
 // Exec is the state of one execution, visible to monitors.
 type Exec struct {
+	CurRunning bool // the first enabled operation of the current state continues the thread that ran last
+
 	Sc     *Scenario
 	W      *World
 	Inner  storage.Vault
@@ -343,9 +345,15 @@ func (x *Exec) enabledOps(gates []*Gate) (labels []string, runningEnabled, force
 			}
 		}
 	}
-	last := w.LastThread
+	// The "running thread" is the operation that the last released one led to: it arrived after that release and
+	// belongs to the same line of work. An operation that was already parked then (and was passed over) is another
+	// thread of activity, whatever its name: preferring it would make "never run it" cost one deviation per step.
+	w.mu.Lock()
+	last, since := w.LastThread, w.lastReleaseSeq
+	w.mu.Unlock()
+	cont := func(g *Gate) bool { return g.seq > since && sameLineage(g.Thread, last) }
 	sort.SliceStable(rel, func(i, j int) bool {
-		li, lj := sameLineage(rel[i].Thread, last), sameLineage(rel[j].Thread, last)
+		li, lj := cont(rel[i]), cont(rel[j])
 		if li != lj {
 			return li
 		}
@@ -359,7 +367,7 @@ func (x *Exec) enabledOps(gates []*Gate) (labels []string, runningEnabled, force
 	if len(threads) > 1 {
 		x.NonTrivial = true
 	}
-	runningEnabled = len(rel) > 0 && sameLineage(rel[0].Thread, last)
+	runningEnabled = len(rel) > 0 && cont(rel[0])
 	tickOK := x.Ticks < x.Sc.maxTicks() && !x.tickDead
 	if len(rel) > 0 {
 		if tickOK && (x.Sc.Time || (x.Sc.TimeoutRace && invParked)) {
@@ -403,6 +411,9 @@ func (x *Exec) tick(forced bool) {
 		h = devHorizon
 	}
 	x.Ticks++
+	w.mu.Lock()
+	w.lastReleaseSeq = w.gateSeq
+	w.mu.Unlock()
 	tm := time.NewTimer(h)
 	select {
 	case <-w.arrival:
@@ -547,6 +558,7 @@ func (x *Exec) run(choose Chooser, mon Monitor, opt ExecOpts) {
 			mon.AtState(x)
 		}
 		enabled, re, forced := x.enabledOps(gates)
+		x.CurRunning = re
 		if len(enabled) == 0 {
 			switch {
 			case x.AllAPIDone() && len(gates) == 0:
